@@ -357,25 +357,39 @@ func c11ContextErr(c *Ctx) *RuleResult {
 	p := c.P
 	units := p.UnitsIn("pkg/clock")
 	errF := p.LookupField("pkg/clock", "suspendableContext", "err")
+	type valueSite struct {
+		u    *FuncUnit
+		e    ast.Expr
+		node ast.Node
+	}
 	for _, w := range FieldWrites(units, errF, false) {
 		if w.RHS == nil {
 			continue
 		}
-		u := w.Unit
-		info := u.Info()
-		construct := constructOf(u, "ctx.err = "+exprStr(w.RHS))
-		okV := exprStr(w.RHS) == "context.DeadlineExceeded"
-		if call, ok := ast.Unparen(w.RHS).(*ast.CallExpr); ok {
-			if sel, ok := ast.Unparen(call.Fun).(*ast.SelectorExpr); ok && sel.Sel.Name == "Err" {
-				if tv, ok := info.Types[sel.X]; ok && isContextType(tv.Type) {
-					okV = true
-				}
+		// a value stored through a helper's parameter is judged where the helper is called
+		sites := []valueSite{{w.Unit, w.RHS, w.Node}}
+		if args := argsOfParam(units, w.Unit, w.RHS); args != nil {
+			sites = nil
+			for _, a := range args {
+				sites = append(sites, valueSite{a.Unit, a.Expr, a.Node})
 			}
 		}
-		if okV {
-			r.ok(construct, posOf(p, w.Node), "deadline, or the base context's own error")
-		} else {
-			r.bad(c.Prop, construct, posOf(p, w.Node), "the context ends with a fixed error instead of the base context's: when the bounded compensation is exhausted the action is reported as cancelled rather than DEADLINE_EXCEEDED")
+		for _, vs := range sites {
+			info := vs.u.Info()
+			construct := constructOf(vs.u, "ctx.err = "+exprStr(vs.e))
+			okV := exprStr(vs.e) == "context.DeadlineExceeded"
+			if call, ok := ast.Unparen(vs.e).(*ast.CallExpr); ok {
+				if sel, ok := ast.Unparen(call.Fun).(*ast.SelectorExpr); ok && sel.Sel.Name == "Err" {
+					if tv, ok := info.Types[sel.X]; ok && isContextType(tv.Type) {
+						okV = true
+					}
+				}
+			}
+			if okV {
+				r.ok(construct, posOf(p, vs.node), "deadline, or the base context's own error")
+			} else {
+				r.bad(c.Prop, construct, posOf(p, vs.node), "the context ends with a fixed error instead of the base context's: when the bounded compensation is exhausted the action is reported as cancelled rather than DEADLINE_EXCEEDED")
+			}
 		}
 	}
 	return r
